@@ -80,6 +80,8 @@ fn run_case_lb(seq: &[Op], loopback: bool, trace: bool) -> CaseResult {
     let mut stream_sizes: Vec<(Op, i64)> = vec![];
     let mut browse_baseline: Option<HashMap<String, i64>> = None;
     let mut orphan_growth: HashMap<String, i64> = HashMap::new();
+    let mut subtype_entries_left = false;
+    let mut ptrs_at_browse_start: i64 = 0;
     let mut trail = String::new();
     let metrics = |w: &mut World| -> HashMap<String, i64> { w.metrics(0).unwrap_or_default() };
     let g = |m: &HashMap<String, i64>, k: &str| m.get(k).copied().unwrap_or(0);
@@ -181,6 +183,7 @@ fn run_case_lb(seq: &[Op], loopback: bool, trace: bool) -> CaseResult {
                 if !browsing {
                     browse_baseline = Some(before.clone());
                     orphan_growth.clear();
+                    ptrs_at_browse_start = g(&before, "cached-ptr");
                 }
                 let rx = w.ds[0].h.browse("_t._tcp.local.").unwrap();
                 w.add_browse(0, rx);
@@ -212,6 +215,7 @@ fn run_case_lb(seq: &[Op], loopback: bool, trace: bool) -> CaseResult {
                         // context: the PTR records left are exactly the subtype PTRs of the instances
                         let ex = |c: &str| g(&now_m, c) - g(base, c) - orphan_growth.get(c).copied().unwrap_or(0);
                         let subtype_ptrs = ex("cached-ptr") > 0 && ex("cached-ptr") == ex("cached-subtype");
+                        subtype_entries_left |= subtype_ptrs;
                         for c in ["cached-ptr", "cached-srv", "cached-txt", "cached-subtype"] {
                             let allowed = g(base, c) + orphan_growth.get(c).copied().unwrap_or(0);
                             if g(&now_m, c) > allowed {
@@ -264,14 +268,22 @@ fn run_case_lb(seq: &[Op], loopback: bool, trace: bool) -> CaseResult {
             let grew: Vec<(String, i64)> = CACHED.iter().map(|c| (c.to_string(), g(&after, c) - g(&before, c))).filter(|x| x.1 > 0).collect();
             if browsing && matches!(op, Op::OrphanStream | Op::HostileCorpus) {
                 for (c, d) in &grew {
-                    *orphan_growth.entry(c.clone()).or_insert(0) += d;
+                    // (PTR records of the corpus belong to the browsed type: stop_browse removes them)
+                    if c != "cached-ptr" && c != "cached-subtype" {
+                        *orphan_growth.entry(c.clone()).or_insert(0) += d;
+                    }
                 }
             }
             // (1) nothing is kept when nothing asked for it
             if !browsing && !resolving && !unsolicited && !grew.is_empty() {
                 // the corpus packets without a PTR are the same situation as the orphan stream
+                // context: only PTR records grew, after a stop_browse that left subtype PTR entries
+                // behind (the known finding below): records are admitted whenever their name already
+                // has an entry, so the subtype PTRs of further instances slip in through those
+                let only_ptr = grew.iter().all(|(c, _)| c == "cached-ptr");
                 let what = match op {
                     Op::OrphanStream | Op::HostileCorpus => "srv-txt-addr-nsec-without-ptr",
+                    _ if only_ptr && subtype_entries_left => "subtype-ptrs-admitted-through-entries-left-by-stop_browse",
                     _ => "other",
                 };
                 res.viols.push(viol(
@@ -282,9 +294,11 @@ fn run_case_lb(seq: &[Op], loopback: bool, trace: bool) -> CaseResult {
             // (2) bounded by need while searching (unsolicited mode accepts everything by design)
             if (browsing || resolving) && !unsolicited {
                 // (the corpus is about the browsed type and host names in use: not judged here)
-                let unneeded = matches!(op, Op::UnbrowsedTypeStream | Op::OrphanStream);
+                // with only a resolver open, the records of instances of any type are unneeded too
+                let type_nobody_browses = !browsing && matches!(op, Op::BrowsedStream | Op::BrowsedStreamLong | Op::PtrTxtOnlyStream);
+                let unneeded = matches!(op, Op::UnbrowsedTypeStream | Op::OrphanStream) || type_nobody_browses;
                 if unneeded && !grew.is_empty() {
-                    let what = if *op == Op::OrphanStream { "srv-txt-addr-nsec-without-ptr" } else { "unbrowsed-type" };
+                    let what = if *op == Op::OrphanStream { "srv-txt-addr-nsec-without-ptr" } else if type_nobody_browses { "instances-of-a-type-nobody-browses-while-only-a-resolver-is-open" } else { "unbrowsed-type" };
                     res.viols.push(viol(
                         format!("C20|unneeded-records-cached-while-searching|{what}"),
                         format!("after {op:?} (step {k}), searches: browse={browsing} resolve={resolving}: {grew:?}"),
@@ -319,7 +333,8 @@ fn run_case_lb(seq: &[Op], loopback: bool, trace: bool) -> CaseResult {
     if browsing && !ever_unsolicited {
         let ptrs = g(&m, "cached-ptr");
         // every browsed instance may hold 2 PTR (type + subtype), 1 SRV, 1 TXT, 1 address
-        if ptrs > 2 * needed_instances as i64 + 2 {
+        // (PTRs admitted before the browse started are judged by clause (2) where they arrive)
+        if ptrs > 2 * needed_instances as i64 + 2 + ptrs_at_browse_start {
             res.viols.push(viol("C20|more-ptr-records-than-browsed-instances", format!("{ptrs} cached PTR for {needed_instances} browsed instances")));
         }
     }
